@@ -585,6 +585,29 @@ def _immutable_annotation(fi: FunctionInfo, name: str) -> bool:
     return bool(names) and all(a in IMMUTABLE_TYPES or a in ("None", "ColumnTag", "Literal") for a in names)
 
 
+def _immutable_attribute(ctx: Ctx, v) -> bool:
+    """``x.attr`` where every field/property called ``attr`` in the package is annotated with immutable scalar types
+    (``max_rows: int | None``): augmented assignment to a local holding it re-binds, it cannot mutate."""
+    if not isinstance(v, ast.Attribute):
+        return False
+    anns = []
+    for mod in ctx.m.modules.values():
+        for c in mod.classes.values():
+            f = c.methods.get(v.attr)
+            if f is not None and f.is_property:
+                anns.append(f.node.returns)
+            for fl in ctx.m.fields(c):
+                if fl.name == v.attr and fl.owner is c:
+                    anns.append(fl.annotation)
+    if not anns or any(a is None for a in anns):
+        return False
+    for a in anns:
+        names = _annotation_names(a)
+        if not names or not all(n in IMMUTABLE_TYPES or n in ("None", "Literal", "Optional", "Union") for n in names):
+            return False
+    return True
+
+
 def _fresh_at(ctx: Ctx, fr: Freshness, fi: FunctionInfo, path: Path, idx: int, name: str, depth: int = 6) -> tuple[bool, str]:
     """Is local ``name`` bound to a fresh object just before step idx on this path?"""
     env = env_at(path, idx)
@@ -663,7 +686,7 @@ def r09_4_no_shared_mutation(ctx: Ctx, whole_package: bool = True) -> None:
                 if isinstance(root, ast.Name) and root.id not in ("self", "cls"):
                     name = root.id
                     if not chain or chain == ["[]"] * len(chain):
-                        if site.how == "augassign-name" and (_immutable_annotation(fi, name) or _const_or_arith(env_at(p, site.idx).get(name))):
+                        if site.how == "augassign-name" and (_immutable_annotation(fi, name) or _const_or_arith(env_at(p, site.idx).get(name)) or _immutable_attribute(ctx, env_at(p, site.idx).get(name))):
                             verdict_ok, why = True, "rebinding of an immutable-typed local"
                         else:
                             verdict_ok, why = _fresh_at(ctx, fr, fi, p, site.idx, name)
